@@ -1383,8 +1383,11 @@ int ov_raw_seek(OggVorbis_File *vf,ogg_int64_t pos){
         ogg_stream_reset_serialno(&vf->os,serialno);
         ogg_stream_reset_serialno(&work_os,serialno);
         vf->ready_state=STREAMSET;
-        firstflag=(pagepos<=vf->dataoffsets[link]);
       }
+      /* is this the link's first data page?  Also needed when the
+         handle was already set up for this link (e.g. right after the
+         headers were fetched at open) */
+      firstflag=(pagepos<=vf->dataoffsets[vf->current_link]);
 
       ogg_stream_pagein(&vf->os,&og);
       ogg_stream_pagein(&work_os,&og);
